@@ -182,6 +182,9 @@ func (m *monState) checkSaveStep(si *StepInfo, pre, post *Snap, evs []Event) {
 	if len(removed) > 0 {
 		run.probe("retention_removed_jobs")
 	}
+	for name := range removed {
+		m.goneBySave[name] = si.N
+	}
 	// jobs that stay must not change
 	for name, j := range post.Jobs {
 		if pj := pre.Jobs[name]; pj != nil && pj.digest() != j.digest() {
@@ -272,7 +275,7 @@ func (m *monState) checkSaveStep(si *StepInfo, pre, post *Snap, evs []Event) {
 				name = jobName(id)
 			}
 			_, still := after[path]
-			_, goneEarlier := m.removed[name]
+			_, goneEarlier := m.goneBySave[name] // (jobs restored from the store after a restart included)
 			if removed[name] != nil || goneEarlier {
 				if still && removed[name] != nil && m.logsPending[name] == nil {
 					// not yet: the call may remove the files later, but before it is over
